@@ -479,6 +479,214 @@ pub fn rename_menu(pkt: &[u8], seed: u64, n: usize) -> Option<String> {
 }
 
 // ---------------------------------------------------------------------------------------------
+// C12 header setters: one event per initial flag word, vectors of (argument, result) inside
+
+fn hdr_packet(tid: u16, w: u16, xfl: Option<u16>) -> Vec<u8> {
+    let mut p = vec![(tid >> 8) as u8, tid as u8, (w >> 8) as u8, w as u8, 0, 1, 0, 0, 0, 0, 0, if xfl.is_some() { 1 } else { 0 }];
+    p.extend(&[1, b'h', 0, 0, 1, 0, 1]);
+    if let Some(x) = xfl {
+        p.extend(&[0, 0, 41, 4, 208, 2, 1, (x >> 8) as u8, x as u8, 0, 0]);
+    }
+    p
+}
+
+pub fn header_event(v: &Value) -> String {
+    let w = v["w"].as_u64().unwrap_or(0) as u16;
+    let tid = v["tid"].as_u64().unwrap_or(0) as u16;
+    let xfl = v["xfl"].as_i64().and_then(|x| if x < 0 { None } else { Some(x as u16) });
+    let base = hdr_packet(tid, w, xfl);
+    let fresh = || DNSSector::new(base.clone()).unwrap().parse();
+    if fresh().is_err() {
+        return format!("{{\"k\":\"hdr\",\"w\":{},\"res\":\"base-rejected\"}}", w);
+    }
+    // everything except the two bytes a setter may touch
+    let rest_same = |p: &[u8], lo: usize, hi: usize| -> bool {
+        p.len() == base.len() && (0..p.len()).all(|i| (i >= lo && i < hi) || p[i] == base[i])
+    };
+    let word = |p: &[u8]| ((p[2] as u32) << 8 | p[3] as u32) as u32;
+    let r = guarded(|| {
+        let mut o = format!("{{\"k\":\"hdr\",\"res\":\"ok\",\"w\":{},\"tid\":{},\"xfl\":{},\"flags\":[", w, tid, xfl.map(|x| x as i64).unwrap_or(-1));
+        for (i, a) in v["fa"].as_array().unwrap().iter().enumerate() {
+            let (lo, hi) = (a[0].as_u64().unwrap() as u32, a[1].as_u64().unwrap() as u32);
+            let mut pp = fresh().unwrap();
+            pp.set_flags((hi << 16) | lo);
+            let g = pp.flags();
+            let qr = pp.is_response();
+            let p = pp.packet();
+            if i > 0 {
+                o.push(',');
+            }
+            o += &format!("[{},{},{},{},{},{},{}]", lo, hi, word(p), rest_same(p, 2, 4) as u8, g & 0xffff, g >> 16, qr as u8);
+        }
+        o += "],\"rcode\":[";
+        for (i, a) in v["rv"].as_array().unwrap().iter().enumerate() {
+            let x = a.as_u64().unwrap() as u8;
+            let mut pp = fresh().unwrap();
+            pp.set_rcode(x);
+            let g = pp.rcode();
+            let p = pp.packet();
+            if i > 0 {
+                o.push(',');
+            }
+            o += &format!("[{},{},{},{}]", x, word(p), rest_same(p, 2, 4) as u8, g);
+        }
+        o += "],\"opcode\":[";
+        for (i, a) in v["ov"].as_array().unwrap().iter().enumerate() {
+            let x = a.as_u64().unwrap() as u8;
+            let mut pp = fresh().unwrap();
+            pp.set_opcode(x);
+            let g = pp.opcode();
+            let p = pp.packet();
+            if i > 0 {
+                o.push(',');
+            }
+            o += &format!("[{},{},{},{}]", x, word(p), rest_same(p, 2, 4) as u8, g);
+        }
+        o += "],\"qr\":[";
+        for b in 0..2u8 {
+            let mut pp = fresh().unwrap();
+            pp.set_response(b == 1);
+            let g = pp.is_response();
+            let p = pp.packet();
+            // the free-standing helper on raw bytes must agree
+            let mut raw = base.clone();
+            DNSSector::set_response(&mut raw, b == 1);
+            let g2 = DNSSector::is_response(&raw);
+            if b > 0 {
+                o.push(',');
+            }
+            o += &format!("[{},{},{},{},{},{},{}]", b, word(p), rest_same(p, 2, 4) as u8, g as u8, word(&raw), rest_same(&raw, 2, 4) as u8, g2 as u8);
+        }
+        o += "],\"tidset\":[";
+        for (i, a) in v["tv"].as_array().unwrap().iter().enumerate() {
+            let x = a.as_u64().unwrap() as u16;
+            let mut pp = fresh().unwrap();
+            pp.set_tid(x);
+            let g = pp.tid();
+            let p = pp.packet();
+            if i > 0 {
+                o.push(',');
+            }
+            o += &format!("[{},{},{},{},{}]", x, (p[0] as u32) << 8 | p[1] as u32, word(p), rest_same(p, 0, 2) as u8, g);
+        }
+        o += "]}";
+        o
+    });
+    match r {
+        Ok(o) => o,
+        Err(()) => format!("{{\"k\":\"hdr\",\"w\":{},\"res\":\"panic\"}}", w),
+    }
+}
+
+/// Thorough tier: sweep all 2^32 (word, argument) pairs in the implementation and report every pair
+/// for which set_flags(w, a) differs from set_flags(w, 0) | set_flags(0, a); with the tables
+/// f(w, 0) and f(0, a) validated by TLC this extends the validation to all pairs.
+pub fn decomposition_sweep(threads: usize) -> String {
+    let base = hdr_packet(0, 0, None);
+    let f = |pp: &mut ParsedPacket, w: u16, a: u32| -> u16 {
+        {
+            let p = pp.packet_mut();
+            p[2] = (w >> 8) as u8;
+            p[3] = w as u8;
+        }
+        pp.set_flags(a);
+        let p = pp.packet();
+        (p[2] as u16) << 8 | p[3] as u16
+    };
+    let mut handles = vec![];
+    for t in 0..threads {
+        let base = base.clone();
+        handles.push(std::thread::spawn(move || {
+            let mut pp = DNSSector::new(base).unwrap().parse().unwrap();
+            let mut f0a = vec![0u16; 65536];
+            for a in 0..65536u32 {
+                f0a[a as usize] = f(&mut pp, 0, a);
+            }
+            let mut bad: Vec<(u16, u32, u16, u16, u16)> = vec![];
+            let mut n: u64 = 0;
+            let mut w = t as u32;
+            while w < 65536 {
+                let fw0 = f(&mut pp, w as u16, 0);
+                for a in 0..65536u32 {
+                    let got = f(&mut pp, w as u16, a);
+                    n += 1;
+                    if got != (fw0 | f0a[a as usize]) && bad.len() < 5 {
+                        bad.push((w as u16, a, got, fw0, f0a[a as usize]));
+                    }
+                }
+                w += threads as u32;
+            }
+            (n, bad)
+        }));
+    }
+    let mut total = 0u64;
+    let mut bad = vec![];
+    for h in handles {
+        match h.join() {
+            Ok((n, b)) => {
+                total += n;
+                bad.extend(b);
+            }
+            Err(_) => return "{\"k\":\"decomp\",\"res\":\"panic\",\"pairs_hi\":0,\"pairs_lo\":0,\"bad\":[]}".to_string(),
+        }
+    }
+    let mut o = format!("{{\"k\":\"decomp\",\"res\":\"ok\",\"pairs_hi\":{},\"pairs_lo\":{},\"bad\":[", total >> 16, total & 0xffff);
+    for (i, (w, a, got, fw0, f0a)) in bad.iter().enumerate() {
+        if i > 0 {
+            o.push(',');
+        }
+        o += &format!("[{},{},{},{},{}]", w, a, got, fw0, f0a);
+    }
+    o += "]}";
+    o
+}
+
+// ---------------------------------------------------------------------------------------------
+// C14: text -> wire name, and read-back through a record
+
+pub fn nametext_event(text: &[u8], zone: &[u8]) -> String {
+    let z = if zone.is_empty() { None } else { Some(zone) };
+    let r = guarded(|| dnssector::synth::r#gen::raw_name_from_str(text, z));
+    let (res, wire) = match &r {
+        Ok(Ok(w)) => ("ok", w.clone()),
+        Ok(Err(_)) => ("err", vec![]),
+        Err(()) => ("panic", vec![]),
+    };
+    let (mut rk, mut rb) = ("none", vec![]);
+    if res == "ok" {
+        // give the name to the answer record of a small valid packet and read it back
+        let pkt: Vec<u8> = vec![
+            0, 1, 0x80, 0, 0, 1, 0, 1, 0, 0, 0, 0, 1, b'q', 0, 0, 1, 0, 1, 1, b'o', 0, 0, 1, 0, 1, 0, 0, 0, 60, 0, 4, 1, 2, 3, 4,
+        ];
+        let out = guarded(|| {
+            let mut pp = DNSSector::new(pkt).unwrap().parse().unwrap();
+            let mut it = pp.into_iter_answer().unwrap();
+            match it.set_raw_name(&wire) {
+                Ok(()) => Some(it.name()),
+                Err(_) => None,
+            }
+        });
+        match out {
+            Ok(Some(n)) => {
+                rk = "ok";
+                rb = n;
+            }
+            Ok(None) => rk = "err",
+            Err(()) => rk = "panic",
+        }
+    }
+    format!(
+        "{{\"k\":\"nametext\",\"text\":{},\"zone\":{},\"res\":\"{}\",\"wire\":{},\"rk\":\"{}\",\"rb\":{}}}",
+        jbytes(text),
+        jbytes(zone),
+        res,
+        jbytes(&wire),
+        rk,
+        jbytes(&rb)
+    )
+}
+
+// ---------------------------------------------------------------------------------------------
 // dispatcher for scenario lines {"do": ..., ...}
 
 pub fn run_line(v: &Value) -> Option<String> {
@@ -513,6 +721,9 @@ pub fn run_line(v: &Value) -> Option<String> {
             Some(prims_event(&pkt, &ops))
         }
         "read" => read_event(&pkt),
+        "hdr" => Some(header_event(v)),
+        "nametext" => Some(nametext_event(&vbytes(&v["text"]), &vbytes(&v["zone"]))),
+        "decomp" => Some(decomposition_sweep(vusize(&v["threads"]).max(1))),
         "uncompress" => {
             let bounds: Vec<usize> = if v["all_offsets"].as_bool().unwrap_or(false) {
                 // every offset from the question to the end (non-boundary offsets are outside
